@@ -325,4 +325,3 @@ func EnumeratePrograms(n int, f func([]Op)) {
 	}
 	rec(0, 0, 0, false)
 }
-
